@@ -116,7 +116,7 @@ def main(argv):
     table_results = []
     for tcfg in cfg.get('tables', []):
         from . import tables
-        table_results.append(tables.run_dispatch(tcfg, pid) if tcfg.get('kind') == 'dispatch' else tables.run(tcfg, pid))
+        table_results.append(tables.run_dispatch(tcfg, pid) if tcfg.get('kind') == 'dispatch' else tables.run_script_parse(tcfg, pid) if tcfg.get('kind') == 'script_parse' else tables.run(tcfg, pid))
 
     # ---- collect ---------------------------------------------------------------------------
     undecided, violations, known_seen = [], [], []
